@@ -26,6 +26,9 @@ type Case struct {
 	Doc  string `json:"doc"`
 	Expr string `json:"expr"`
 	AST  *ref.E `json:"ast"`
+	// All: the one document is evaluated with eval-all (the list of current nodes starts as the
+	// same one root, so the semantics defines the same results)
+	All bool `json:"all,omitempty"`
 }
 
 func genCase(t *rapid.T) Case {
@@ -37,7 +40,8 @@ func genCase(t *rapid.T) Case {
 	}
 	doc := gen.JSONDoc(t, gen.DocOpts{Depth: depth, Width: width})
 	e := gen.CoreExpr(t, doc, ed)
-	return Case{Doc: doc.JSON(), Expr: ref.Print(e), AST: e}
+	all := rapid.IntRange(0, 3).Draw(t, "all") == 0
+	return Case{Doc: doc.JSON(), Expr: ref.Print(e), AST: e, All: all}
 }
 
 func show(vs []*model.Value) string {
@@ -74,7 +78,13 @@ func check(c Case) hx.Verdict {
 		return hx.Disc("bad_doc")
 	}
 	ref.Misses = 0
+	ref.MultiCtx = 0
 	want, rerr := ref.Eval(c.AST, []*model.Value{doc}, ref.Env{})
+	if c.All && ref.MultiCtx > 0 {
+		// document roots that are evaluated together are paired and collected across the
+		// list of current nodes: the per-node semantics of the statement is that of eval
+		return hx.Unspec("eval_all_several_current_nodes")
+	}
 	// a divergence in a case whose reference evaluation read something that is not
 	// there is attributed to the known read-autovivification finding
 	sig := ""
@@ -88,7 +98,7 @@ func check(c Case) hx.Verdict {
 		}
 		return hx.Unspec("why:" + why)
 	}
-	got, o := hx.JSONResults(c.Expr, c.Doc, "json")
+	got, o := hx.JSONResultsAll(c.Expr, c.Doc, "json", c.All)
 	if o.Crashed() {
 		return hx.Bad("panic-site:"+o.PanicSite, "panic %s: expr=%s doc=%s", o.Panic, c.Expr, c.Doc)
 	}
@@ -96,6 +106,9 @@ func check(c Case) hx.Verdict {
 		return hx.Unspec("slow")
 	}
 	labels := opLabels(c.AST)
+	if c.All {
+		labels = append(labels, "eval_all")
+	}
 	if rerr != nil {
 		labels = append(labels, "expected_error")
 		if o.Err == "" {
